@@ -533,7 +533,7 @@ func confirmedDeadlock() (bool, string) {
 
 func journal(c *StressCase) {
 	dir := os.Getenv("VERIF_WORK")
-	if dir == "" {
+	if dir == "" || os.Getenv("VERIF_JOB") == "" {
 		return
 	}
 	raw, _ := json.Marshal(c)
